@@ -454,6 +454,11 @@ pub fn run_batch<P: Prop>(o: &Opts) -> i32 {
                             }
                         }
                     }
+                    if std::env::var("VSIM_DESCRIBE").is_ok() {
+                        // diagnosis aid: what was run i?
+                        let v = serde_json::to_string(&P::sample(&scn)).unwrap_or_default();
+                        eprintln!("D {} {}", i, v.chars().take(400).collect::<String>());
+                    }
                     let mut st = RunStats::default();
                     // configuration dimension: one run in four has logging switched on (log arguments are evaluated)
                     crate::logsim::set(P::logging_allowed() && i % 4 == 1);
